@@ -238,7 +238,8 @@ class Interp:
         if isinstance(v, SSet):
             fin = getattr(v, "finite", None)
             if fin is None:
-                raise Unsupported("truth of a symbolic set without finite carrier")
+                x = z3.Const(self.ctx.fresh_name("sx"), sort_of(v.ety))
+                return z3.Exists([x], z3.Select(v.pred, x))
             return z3.simplify(z3.Or([c for _, c in fin])) if fin else False
         if isinstance(v, SDict):
             raise Unsupported("truth of symbolic dict")
@@ -352,6 +353,10 @@ class Interp:
                 return self.eval(node, env)
             finally:
                 self.frames.pop()
+        if self.V.c.extern_patterns and not self.V.in_contract_expr and not isinstance(node, (ast.ListComp, ast.SetComp, ast.DictComp, ast.GeneratorExp, ast.Constant, ast.Name)):
+            pat = self.V.extern_pattern(self, node, env)
+            if pat is not _MISSING:
+                return pat
         meth = getattr(self, "e_" + type(node).__name__, None)
         if meth is None:
             raise Unsupported(f"expression {type(node).__name__} at line {getattr(node, 'lineno', '?')}")
@@ -776,6 +781,10 @@ class Interp:
                 return self.V.user_contains(self, c, item, node)
             i = z3.Int(self.ctx.fresh_name("i"))
             return SV(z3.Exists([i], z3.And(0 <= i, i < c.nz(), z3.Select(c.arr, i) == pack(self.ctx, item, c.ety))), BOOL)
+        if isinstance(c, Obj) and callable(c.fields.get("__contains__")):
+            return c.fields["__contains__"](self, item)
+        if isinstance(c, Opaque) or (isinstance(c, FuncRef) and c.node is None):
+            return SV(z3.Bool(self.ctx.fresh_name("truth_opq_in")), BOOL)
         if self.user_eq(c):
             return self.V.user_cmp(self, "contains", c, item, node)
         if isinstance(c, Obj) and self.V.has_method(c.cls, "__contains__"):
@@ -844,10 +853,14 @@ class Interp:
                 i2 = z3.simplify(z3.If(i < 0, i + n, i))
             self.implicit("IndexError", ok, "index-in-range", node)
             return list_get(self.ctx, base, i2)
+        if isinstance(base, Obj) and callable(base.fields.get("__getitem__")):
+            return base.fields["__getitem__"](self, idx)
         if isinstance(base, Obj) and self.V.has_method(base.cls, "__getitem__"):
             return self.call_method(base, "__getitem__", [idx], {}, node)
         if isinstance(base, Opaque):
             return Opaque(f"{base.what}[...]")
+        if isinstance(base, FuncRef) and base.node is None:
+            return Opaque(f"{base.qual}[...]")
         if isinstance(base, SV) and isinstance(base.ty, Abs):
             return self.V.abs_index(self, base, idx, node)
         raise Unsupported(f"subscript of {base!r}")
@@ -965,6 +978,9 @@ class Interp:
         first = self.eval(n.generators[0].iter, env)
         if isinstance(first, Opaque) or (isinstance(first, FuncRef) and first.node is None):
             return Opaque("comprehension over an unknown iterable")
+        if isinstance(first, SList) and not isinstance(first.n, int):
+            # no contract for this comprehension: its value is unconstrained (sound over-approximation)
+            return Opaque("comprehension over a list of unknown length")
 
         def rec(gens, env):
             if not gens:
@@ -1104,6 +1120,8 @@ class Interp:
         if isinstance(base, ClassRef):
             self.V.set_global(self, f"{base.qual}.{attr}", v)
             return
+        if isinstance(base, FuncRef) and base.node is None:
+            return  # attribute of an external module (e.g. sys.meta_path): outside the tracked state
         raise Unsupported(f"setattr on {base!r}")
 
     def setitem(self, base, idx, v, node=None):
@@ -1126,6 +1144,9 @@ class Interp:
             base.arr = z3.Store(base.arr, z3.If(i < 0, i + n, i), pack(self.ctx, v, base.ety))
             return
         if isinstance(base, Opaque):
+            return
+        if isinstance(base, Obj) and callable(base.fields.get("__setitem__")):
+            base.fields["__setitem__"](self, idx, v)
             return
         if isinstance(base, PyDict) and is_sym(idx):
             for k in list(base.d):
